@@ -86,32 +86,50 @@ theorem layer_slices_contiguous_counterexample : ¬ layer_slices_contiguous_Full
   revert this
   decide
 
-/-- (4) generic `codec.Parameters` objects (extractBasicLosslessParams): whatever keys are present, the extracted
-    object has Rate ≥ 1 (a generic "rate" ≤ 0 does not override the default 20), so a generic object always
-    requests a rate ladder; it is in the property's scope exactly when it does not switch the final lossless
-    layer off; the progression order is reduced modulo 256 (uint8) and then repaired by Validate; and for every
-    in-scope generic object the conclusions of (1) hold. -/
+/-- (4) generic `codec.Parameters` objects (extractBasicLosslessParams, after the repair that lets "rate": 0
+    override the default): the extracted Rate is the key's value when it is an int ≥ 0 and the default 20
+    otherwise — so it is 0 exactly when the bag says "rate": 0; the extracted object is in the property's scope
+    exactly when the bag does not switch the final lossless layer off, or asks for no rate target with its own
+    keys ("rate": 0 and no / a zero "targetRatio"); the progression order is reduced modulo 256 (uint8) and then
+    repaired by Validate; for every in-scope generic object the conclusions of (1) hold, and when the bag keeps
+    the final lossless layer and the extracted Rate is positive (in particular when "rate" is absent) the layered
+    path with ≥ 2 layers and a closing all-pass layer is taken. -/
 theorem generic_params_sound (g : GParams) (bs ba : Int) (hbs : 1 ≤ bs) (hba : 1 ≤ ba) :
-    (extractGeneric g).Rate > 0 ∧ 0 ≤ (extractGeneric g).ProgressionOrder ∧
-    (inScope (extractGeneric g) ↔ g.appendLosslessLayer ≠ some false) ∧
-    (g.appendLosslessLayer ≠ some false →
+    (extractGeneric g).Rate ≥ 0 ∧ ((extractGeneric g).Rate = 0 ↔ g.rate = some 0) ∧
+    0 ≤ (extractGeneric g).ProgressionOrder ∧
+    (inScope (extractGeneric g) ↔
+      (g.appendLosslessLayer ≠ some false ∨ (g.rate = some 0 ∧ ∀ t, g.targetRatio = some t → t.num = 0))) ∧
+    (inScope (extractGeneric g) →
+      let e := encodeParams bs ba (extractGeneric g)
+      e.Lossless = true ∧ 1 ≤ e.NumLayers ∧ 0 ≤ e.NumLevels ∧ e.NumLevels ≤ 6 ∧
+      0 ≤ e.ProgressionOrder ∧ e.ProgressionOrder ≤ 4 ∧
+      (e.TargetRatio.pos = true → e.AppendLosslessLayer = true ∧ 2 ≤ e.NumLayers) ∧
+      ((validate (extractGeneric g)).Rate > 0 → e.LayerRates.getLast? = some Frac.zero) ∧
+      (useLayered e = true → appendLosslessFlag e = true)) ∧
+    (g.appendLosslessLayer ≠ some false → (extractGeneric g).Rate > 0 →
       let e := encodeParams bs ba (extractGeneric g)
       e.Lossless = true ∧ 2 ≤ e.NumLayers ∧ 0 ≤ e.NumLevels ∧ e.NumLevels ≤ 6 ∧
       0 ≤ e.ProgressionOrder ∧ e.ProgressionOrder ≤ 4 ∧ e.AppendLosslessLayer = true ∧
       e.LayerRates.getLast? = some Frac.zero ∧ appendLosslessFlag e = true) := by
-  have hrate := extract_rate g
+  have hrate0 := extract_rate g
+  have hzero := extract_rate_zero g
   have hprog := extract_prog g
   have happ := extract_append g
-  have hscope : inScope (extractGeneric g) ↔ g.appendLosslessLayer ≠ some false := by
+  have htgt := extract_target g
+  have htz : (extractGeneric g).TargetRatio.num = 0 ↔ ∀ t, g.targetRatio = some t → t.num = 0 := by
+    rw [htgt]
+    cases g.targetRatio with
+    | none => simp [Frac.zero]
+    | some t => simp
+  have hscope : inScope (extractGeneric g) ↔
+      (g.appendLosslessLayer ≠ some false ∨ (g.rate = some 0 ∧ ∀ t, g.targetRatio = some t → t.num = 0)) := by
     unfold inScope
-    constructor
-    · rintro (h | ⟨h, _⟩)
-      · exact happ.mp h
-      · omega
-    · intro h; exact Or.inl (happ.mpr h)
-  refine ⟨hrate, hprog, hscope, ?_⟩
-  intro hne
-  have hs := hscope.mpr hne
+    rw [happ, hzero, htz]
+  refine ⟨hrate0, hzero, hprog, hscope, ?_, ?_⟩
+  · intro hs
+    exact lossless_params_sound (extractGeneric g) bs ba hbs hba hprog hs
+  intro hne hrate
+  have hs : inScope (extractGeneric g) := hscope.mpr (Or.inl hne)
   have S := lossless_params_sound (extractGeneric g) bs ba hbs hba hprog hs
   simp only [] at S
   obtain ⟨s1, s2, s3, s4, s5, s6, s7, s8, s9⟩ := S
@@ -140,6 +158,22 @@ example :
     let g : GParams := ⟨some 9, none, some (-4), some [], some 260, some 3, none, none, none⟩
     extractGeneric g = { defaultLParams with ProgressionOrder := 4, NumLayers := 3 } ∧
     (encodeParams 12 16 (extractGeneric g)).NumLayers = 4 := by decide
+
+/-- non-vacuity of the repaired branch (the hunters' witness): "rate": 0, "targetRatio": 0,
+    "appendLosslessLayer": false, "rateLevels": [10, 5] — the bag is in scope through its own keys, the
+    extracted Rate is 0 and the encoder gets ONE layer and no rate target (before the repair: Rate 20 and a
+    single rate-limited layer without the closing lossless layer) -/
+example :
+    let g : GParams := ⟨some 5, some true, some 0, some [10, 5], some 0, some 1, some Frac.zero, some false, some false⟩
+    (extractGeneric g).Rate = 0 ∧ (extractGeneric g).AppendLosslessLayer = false ∧
+    (g.rate = some 0 ∧ ∀ t, g.targetRatio = some t → t.num = 0) ∧
+    (encodeParams 8 8 (extractGeneric g)).NumLayers = 1 ∧
+    (encodeParams 8 8 (extractGeneric g)).TargetRatio.pos = false ∧
+    useLayered (encodeParams 8 8 (extractGeneric g)) = false := by
+  refine ⟨by decide, by decide, ⟨rfl, ?_⟩, by decide, by decide, by decide⟩
+  intro t ht
+  cases ht
+  rfl
 
 /-- (5) the encoder's own decision, GENERATED from encoder.go initRDLayerConfig: for a reversible parameter set the
     layer count is max(1, NumLayers) and `appendLossless` is on exactly when there are ≥ 2 layers — it does not
